@@ -3,3 +3,8 @@ mod atom_typing;
 pub mod core;
 mod dihedral_bond;
 pub(crate) mod inversion_centers;
+
+#[cfg(optrs_verif)]
+pub(crate) use self::{
+    atom_types::ATOM_TYPES, atom_typing::UFFAtomType, inversion_centers::INVERSION_CENTERS,
+};
